@@ -232,6 +232,9 @@ pub fn random<const N: usize, P: Pad>(ctx: &mut Ctx) {
                         fault = Some((*rng.pick(ks), 1 + rng.below(3) as u32));
                     }
                 }
+                if ctx.attribute.is_some() && N <= 64 {
+                    control_step(&h, &model, &op, ctx, &mon);
+                }
                 let out = step(&mut h, &mut model, &op, &mut env, ctx, &mon, fault, Some(&pre));
                 if repaint {
                     for (k, id) in out.events.iter().zip(out.event_ids.iter()) {
